@@ -845,12 +845,13 @@ async fn handle_frontend_messages<S: TransportSenderT>(
 		// User called `request` on the front-end
 		FrontToBack::Request(request) => {
 			if let Err(send_back) = manager.lock().insert_pending_call(request.id.clone(), request.send_back) {
-				tracing::debug!(target: LOG_TARGET, "Denied duplicate method call");
-
+				// A request nobody waits for is the unsubscribe call the read task built for a subscription that
+				// was accepted after its caller had gone: it goes out under the id reserved for it.
 				if let Some(s) = send_back {
+					tracing::debug!(target: LOG_TARGET, "Denied duplicate method call");
 					let _ = s.send(Err(InvalidRequestId::Occupied(request.id.to_string())));
+					return Ok(());
 				}
-				return Ok(());
 			}
 
 			sender.send(request.raw).await?;
